@@ -189,23 +189,89 @@ pub fn check_c17(cx: &C17Ctx, out: &mut Outcome) {
                     Some(s) => *s,
                     None => continue,
                 };
-                // first grant (stream or connection level, or a SETTINGS frame) delivered to E after the call
-                let grant_t = cx.tap.frames.iter().filter(|f| f.from != e).filter(|f| matches!(&f.frame, Ok(Frame::WinUp { stream, .. }) if *stream == sid || *stream == 0) || matches!(&f.frame, Ok(Frame::Settings { ack: false, .. }))).filter_map(|f| f.t_d0).filter(|t| *t > ev.step).min();
-                let grant_t = match grant_t {
-                    Some(t) => t,
-                    None => continue,
+                let t = ev.step;
+                let p_side_settings: Vec<(u64, Vec<(u16, u32)>)> = cx.tap.frames.iter().filter(|f| f.from != e).filter_map(|f| if let (Ok(Frame::Settings { ack: false, params }), Some(td)) = (&f.frame, f.t_d0) { Some((td, params.clone())) } else { None }).collect();
+                let e_acks: Vec<u64> = cx.tap.frames.iter().filter(|f| f.from == e).filter_map(|f| if let Ok(Frame::Settings { ack: true, .. }) = &f.frame { Some(f.t_w0) } else { None }).collect();
+                // values of one SETTINGS parameter E may have had in force at step t: the last one whose acknowledgement
+                // E had written by then, and every one delivered by then but not yet acknowledged
+                let in_force = |id: u16, default: Option<u32>| -> Vec<Option<u32>> {
+                    let mut base = default;
+                    let mut cands: Vec<Option<u32>> = Vec::new();
+                    for (k, (td, params)) in p_side_settings.iter().enumerate() {
+                        if let Some(v) = params.iter().rev().find(|p| p.0 == id).map(|p| p.1) {
+                            let acked = e_acks.get(k).map(|a| *a <= t).unwrap_or(false);
+                            if acked {
+                                base = Some(v);
+                                cands.clear();
+                            } else if *td <= t {
+                                cands.push(Some(v));
+                            }
+                        }
+                    }
+                    cands.push(base);
+                    cands
                 };
                 let own_rst = cx.tap.frames.iter().filter(|f| f.from == e).filter_map(|f| if let Ok(Frame::Rst { stream, .. }) = &f.frame { if *stream == sid { Some(f.t_w0) } else { None } } else { None }).min();
-                // (two executor steps of slack: the grant is processed in the poll after its delivery)
-                let late = cx.tap.frames.iter().find(|f| f.from == e && f.raw.stream == sid && f.t_w0 > grant_t + 2 && matches!(&f.frame, Ok(Frame::Data { data, .. }) if !data.is_empty()) && own_rst.map(|r| r > f.t_w0).unwrap_or(true));
-                if let Some(f) = late {
+                let data_after: Vec<&crate::tapx::TFrame> = cx.tap.frames.iter().filter(|f| f.from == e && f.raw.stream == sid && f.t_w0 > t && matches!(&f.frame, Ok(Frame::Data { data, .. }) if !data.is_empty()) && own_rst.map(|r| r > f.t_w0).unwrap_or(true)).collect();
+                if data_after.is_empty() {
+                    continue;
+                }
+                // (a) flow control: what is written after the call fits into the credit E can have held at the call
+                // (frames already handed to the codec were cut from that credit; anything beyond it needed a grant that
+                // arrived later, so it was still queued when send_reset ran)
+                let flow = |f: &crate::tapx::TFrame| f.frame.as_ref().map(|x| x.flow_len() as i64).unwrap_or(0);
+                let iw = in_force(4, Some(65535)).into_iter().flatten().max().unwrap_or(65535) as i64;
+                let wu = |st: u32| -> i64 { cx.tap.frames.iter().filter(|f| f.from != e).filter_map(|f| if let (Ok(Frame::WinUp { stream, inc, .. }), Some(td)) = (&f.frame, f.t_d0) { if *stream == st && td <= t { Some(*inc as i64) } else { None } } else { None }).sum() };
+                let sent_stream: i64 = cx.tap.frames.iter().filter(|f| f.from == e && f.raw.stream == sid && f.t_w0 <= t && matches!(&f.frame, Ok(Frame::Data { .. }))).map(|f| flow(f)).sum();
+                let sent_conn: i64 = cx.tap.frames.iter().filter(|f| f.from == e && f.t_w0 <= t && matches!(&f.frame, Ok(Frame::Data { .. }))).map(|f| flow(f)).sum();
+                let a_stream = iw + wu(sid) - sent_stream;
+                let a_conn = 65535 + wu(0) - sent_conn;
+                let credit = a_stream.min(a_conn).max(0);
+                let b: i64 = data_after.iter().map(|f| flow(f)).sum();
+                if b > credit {
                     out.fail(
                         "C17",
                         "reset/discard",
                         "C17/unsent-data-written-after-send_reset",
-                        format!("{} stream {}: send_reset was called at step {}; a DATA frame of {} bytes on that stream was first written at step {}, after a window grant that only arrived at step {} — data still queued at the time of the reset must be discarded", e.name(), sid, ev.step, f.raw.payload.len(), f.t_w0, grant_t),
+                        format!("{} stream {}: send_reset was called at step {}; {} bytes of DATA on that stream were first written after the call although the windows the peer had granted by then left room for {} at most (stream {}, connection {}) — data that still waited for a window grant when send_reset ran must be discarded", e.name(), sid, t, b, credit, a_stream, a_conn),
                     );
                     break;
+                }
+                // (b) concurrency: the stream's opening HEADERS were written after the call, and at the call as many
+                // earlier own streams as the limit allows were open with nothing yet under way that could close them:
+                // the request was still queued behind the limit, so none of its body was handed to the codec
+                if e == Side::Client {
+                    let open_t = cx.tap.frames.iter().filter(|f| f.from == e && f.raw.stream == sid && matches!(&f.frame, Ok(Frame::Headers { .. }))).map(|f| f.t_w0).min();
+                    let limits = in_force(3, None);
+                    if let (Some(open_t), false) = (open_t, limits.iter().any(|l| l.is_none())) {
+                        let limit = limits.iter().flatten().max().copied().unwrap_or(u32::MAX) as usize;
+                        if open_t > t {
+                            let stream_key: HashMap<u32, u32> = key_stream.iter().filter(|((sd, _), _)| *sd == e).map(|((_, k), st)| (*st, *k)).collect();
+                            let mut held = 0usize;
+                            let mut ids: Vec<u32> = cx.tap.frames.iter().filter(|f| f.from == e && f.raw.stream % 2 == 1 && f.raw.stream < sid && f.t_w0 <= t && matches!(&f.frame, Ok(Frame::Headers { .. }))).map(|f| f.raw.stream).collect();
+                            ids.sort();
+                            ids.dedup();
+                            for s2 in ids {
+                                let peer_closing = cx.tap.frames.iter().any(|f| {
+                                    f.from != e && f.raw.stream == s2 && f.t_d0.map(|d| d <= t).unwrap_or(false) && (matches!(&f.frame, Ok(Frame::Rst { .. }) | Ok(Frame::GoAway { .. })) || matches!(&f.frame, Ok(Frame::Headers { end_stream: true, .. }) | Ok(Frame::Data { end_stream: true, .. })))
+                                });
+                                let own_giving_up = stream_key.get(&s2).map(|k| cx.events.iter().any(|x| x.side == e && x.key == *k && x.step <= t && matches!(&x.api, Api::SentReset { .. } | Api::DroppedSend | Api::DroppedRecv | Api::DroppedResponseFuture))).unwrap_or(true);
+                                if !peer_closing && !own_giving_up {
+                                    held += 1;
+                                }
+                            }
+                            let goaway = cx.tap.frames.iter().any(|f| matches!(&f.frame, Ok(Frame::GoAway { .. })));
+                            if held >= limit && !goaway {
+                                out.fail(
+                                    "C17",
+                                    "reset/discard",
+                                    "C17/unsent-data-written-after-send_reset",
+                                    format!("{} stream {}: send_reset was called at step {} while the request was still queued behind the concurrency limit ({} earlier streams open, limit {}); its HEADERS were written at step {} and {} bytes of DATA followed — the queued body must be discarded", e.name(), sid, t, held, limit, open_t, b),
+                                );
+                                break;
+                            }
+                        }
+                    }
                 }
             }
         }
